@@ -1,4 +1,4 @@
 #!/bin/bash
 # tools/benign_matrix.sh [tier] - every property-preserving change under /verif/benign must leave every check at exit 0
 cd "$(dirname "$0")/.."
-for d in benign/*/; do tools/benign_eval.sh $d/patch.diff "${1:-quick}" 2>&1 | grep "ALARM\|BENIGN"; done
+for d in benign/[A-Z]*/; do tools/benign_eval.sh $d/patch.diff "${1:-quick}" 2>&1 | grep "ALARM\|BENIGN"; done
